@@ -523,6 +523,10 @@ class StubPolicy(pythia.Policy):
 
   def suggest(self, request):
     entry = self._c.next_entry()
+    if entry.get('sleep'):
+      # a slow algorithm (the computation of one study overlaps other clients' calls)
+      import time
+      time.sleep(float(entry['sleep']))
     md = request.study_config.metadata.ns(STUB_NS)
     n = int(md.get('n', default='0'))
     calls = int(md.get('calls', default='0'))
